@@ -18,7 +18,7 @@ MODEL = "fixed"
 class C17(Prop):
     pid = "C17"
     lean_module = "RxModel.Props.C17"
-    extra_modules = ("RxModel.Props.C17S",)
+    extra_modules = ("RxModel.Props.C17S", "RxModel.Props.C17C")
     design_ref = "DESIGN.md §6 C17"
     rule = ("the C01 case population with `q closed` sampled after every event (and `unsub` injected in a third "
             "of the cases). Compared: the closed answers and the kinds of what is delivered. Oracle on the "
